@@ -30,6 +30,11 @@ fn dispatch(prop: &str, tier: &str, seed: u64, rest: &[String]) -> i32 {
             }
             rep.finish()
         }
+        "C01" => {
+            let mut rep = Report::new("C01", ev_tier, seed);
+            vh::c01::run(&mut rep, tier);
+            rep.finish()
+        }
         "C20" => {
             let mut rep = Report::new("C20", ev_tier, seed);
             vh::c20::run(&mut rep, tier);
